@@ -28,8 +28,9 @@ type residualEntry struct {
 	// tokenVec[0].len < INPUT"), with symbol numbers and allocation prefixes
 	// removed — the same obligation is recognised when the expression that states
 	// it in the source changes shape (a token handed to a helper as a parameter)
-	Alt  string `json:"alt,omitempty"`
-	used bool
+	Alt      string `json:"alt,omitempty"`
+	used     bool
+	normUsed bool // already absorbed one obligation through its normalised construct
 }
 
 var (
@@ -40,6 +41,24 @@ var (
 
 // normalizeWhy strips what is particular to one analysis run or one shape of the
 // source from an obligation's statement.
+var (
+	reIdxVar  = regexp.MustCompile(`(φ\w+|\*&\w+|\*\$\w+)([+\-\]\)])`)
+	reLoopTag = regexp.MustCompile(`^loop #\d+ of (\w+) \(.*\)$`)
+	reInFunc  = regexp.MustCompile(` in \w+$`)
+)
+
+// normalizeConstruct removes what a restructuring changes without changing the obligation:
+// how an index variable is held (a φ, a local, a pointer parameter), the ordinal and the
+// variable list of a loop, the name of the function an invariant is re-proved in.
+func normalizeConstruct(e string) string {
+	e = reIdxVar.ReplaceAllString(e, "#$2")
+	if m := reLoopTag.FindStringSubmatch(e); m != nil {
+		e = "loop of " + m[1]
+	}
+	e = reInFunc.ReplaceAllString(e, "")
+	return e
+}
+
 func normalizeWhy(w string) string {
 	w = reSymNo.ReplaceAllString(w, "")
 	w = reAlloc.ReplaceAllString(w, "")
@@ -111,16 +130,26 @@ func emitObs(r *core.Result, obs []*absint.Ob, residuals []*residualEntry, prop 
 			continue
 		}
 		matched := false
-		for _, re := range residuals {
-			sameOb := re.Expr == o.Expr || (re.Alt != "" && re.Alt == normalizeWhy(o.Why))
-			if re.Rule == o.Rule && sameOb && (re.Func == o.Fn || (residualScope != nil && residualScope(re.Func, o.Fn))) {
-				if os.Getenv("VERIF_DBGRESID") != "" {
-					fmt.Fprintf(os.Stderr, "RESID %s | %s | %s | alt=%q\n", o.Rule, o.Fn, o.Expr, normalizeWhy(o.Why))
+		for pass := 0; pass < 2 && !matched; pass++ {
+			for _, re := range residuals {
+				sameOb := re.Expr == o.Expr || (re.Alt != "" && re.Alt == normalizeWhy(o.Why))
+				viaNorm := false
+				if !sameOb && pass == 1 && !re.normUsed && !re.used && normalizeConstruct(re.Expr) == normalizeConstruct(o.Expr) {
+					// the same construct after a restructuring: one obligation per listed entry
+					sameOb, viaNorm = true, true
 				}
-				re.used = true
-				matched = true
-				r.Residual(o.Rule, o.Fn, o.Expr, o.Pos, re.Reason)
-				break
+				if re.Rule == o.Rule && sameOb && (re.Func == o.Fn || (residualScope != nil && residualScope(re.Func, o.Fn))) {
+					if viaNorm {
+						re.normUsed = true
+					}
+					if os.Getenv("VERIF_DBGRESID") != "" {
+						fmt.Fprintf(os.Stderr, "RESID %s | %s | %s | alt=%q\n", o.Rule, o.Fn, o.Expr, normalizeWhy(o.Why))
+					}
+					re.used = true
+					matched = true
+					r.Residual(o.Rule, o.Fn, o.Expr, o.Pos, re.Reason)
+					break
+				}
 			}
 		}
 		if !matched {
